@@ -225,6 +225,22 @@ func (op *chunkOperator) OnChunkRecovered(chunk base.LogChunk) {
 	op.metrics.persistentChunkBytes.Add(stat.Size)
 }
 
+// OnChunkSkipped accounts the size of a chunk file which is left on disk without being queued
+func (op *chunkOperator) OnChunkSkipped(chunk base.LogChunk) {
+	if op.maybeDir == nil {
+		return
+	}
+
+	stat, serr := util.StatFileAt(op.maybeDir, chunk.ID)
+	if serr != nil {
+		op.metrics.ioErrorsTotal.Inc()
+		op.logger.Errorf("error stating skipped chunk id=%s: %s", chunk.ID, serr.Error())
+		return
+	}
+
+	op.metrics.persistentChunkBytes.Add(stat.Size)
+}
+
 func (op *chunkOperator) Close() {
 	if op.maybeDir == nil {
 		return
